@@ -238,3 +238,56 @@ def run(ctx):
             else:
                 ctx.violate("R5", f"array field {ci.name}.{name} has no validate_shape validator", relpath=ci.module.relpath, function=ci.qualname, construct=f"field {name}")
     ctx.floor("R5", nf, 20, "array-valued fields")
+    # the validator itself: every axis is compared unless its expected size is None
+    vs = prog.func("iodata.attrutils.validate_shape")
+    inner = [g for g in vs.nested.values()]
+    if len(inner) != 1:
+        raise AnalysisError("validate_shape no longer has a single validator closure")
+    val = inner[0]
+    axis_pred = None
+    ndim_checked = False
+    for n in val.own_nodes():
+        if isinstance(n, ast.Compare) and len(n.ops) == 1 and isinstance(n.ops[0], (ast.NotEq, ast.Eq)):
+            t = src_of(n)
+            if t.replace("!=", "==") in ("len(expected_shape) == len(observed_shape)", "len(observed_shape) == len(expected_shape)"):
+                ndim_checked = True
+        if isinstance(n, ast.For) and isinstance(n.iter, ast.Call) and getattr(n.iter.func, "id", "") == "zip" and isinstance(n.target, ast.Tuple) and len(n.target.elts) == 2:
+            es, osn = (e.id for e in n.target.elts)
+            skips = []
+            mism = []
+            for st in n.body:
+                if isinstance(st, ast.If):
+                    kinds = {type(x).__name__ for x in st.body}
+                    if any(isinstance(x, ast.Continue) for x in st.body):
+                        skips.append(" ".join(src_of(st.test).split()))
+                    else:
+                        mism.append(" ".join(src_of(st.test).split()))
+            axis_pred = (skips, mism, es, osn, n)
+        if isinstance(n, ast.Call) and getattr(n.func, "id", "") == "all" and n.args and isinstance(n.args[0], ast.GeneratorExp):
+            g = n.args[0]
+            if len(g.generators) == 1 and isinstance(g.generators[0].iter, ast.Call) and getattr(g.generators[0].iter.func, "id", "") == "zip" and isinstance(g.generators[0].target, ast.Tuple):
+                es, osn = (e.id for e in g.generators[0].target.elts)
+                e = g.elt
+                if isinstance(e, ast.BoolOp) and isinstance(e.op, ast.Or) and len(e.values) == 2:
+                    axis_pred = ([" ".join(src_of(e.values[0]).split())], [" ".join(src_of(ast.UnaryOp(op=ast.Not(), operand=e.values[1])).split())], es, osn, n)
+                else:
+                    axis_pred = ([], [src_of(e)], es, osn, n)
+    if axis_pred is None:
+        ctx.violate("R5", "validate_shape: cannot find the per-axis comparison of expected and observed shape", val, val.node, construct="axis comparison")
+    else:
+        skips, mism, es, osn, node = axis_pred
+        ok_skip = skips in ([f"{es} is None"], [])
+        ok_mism = mism and all(m in (f"{es} != {osn}", f"{osn} != {es}", f"not {es} == {osn}", f"not {osn} == {es}") for m in mism)
+        if ok_skip and ok_mism and skips:
+            ctx.ok("R5", f"validate_shape compares every axis; the only wildcard is `{es} is None`", f"{val.module.relpath}:{node.lineno}")
+        elif not ok_skip:
+            ctx.violate("R5", f"validate_shape skips an axis when `{skips}`: only `{es} is None` is a wildcard (an expected size of 0 must still be compared)", val, node, construct=f"axis wildcard {skips}")
+        else:
+            ctx.violate("R5", f"validate_shape axis comparison is `{mism}` with wildcard `{skips}`; expected `{es} != {osn}` unless `{es} is None`", val, node, construct=f"axis comparison {mism}")
+    if ndim_checked:
+        ctx.ok("R5", "validate_shape compares the number of dimensions", val.where)
+    else:
+        ctx.violate("R5", "validate_shape does not compare the number of dimensions", val, val.node, construct="ndim comparison")
+    rs = [n for n in val.own_nodes() if isinstance(n, ast.Raise)]
+    if not rs or not all(raises_class(r) in ("TypeError", "ValueError") for r in rs):
+        ctx.violate("R5", "validate_shape does not raise TypeError on a mismatch", val, val.node, construct="validator raise")
